@@ -1,7 +1,14 @@
 (* C05 -- emitted link and image URLs are normalised and never carry a dangerous scheme.
-   URL layer: statements for ALL strings; mdurl.parse/format/punycode are an arbitrary
-   function [reformat].  Only statements and [exact]. *)
-From MD Require Import Base.Py Base.Str Base.Opt Model.Utils Model.Url Lemmas.UrlLemmas.
+   END TO END ON THE MODEL (C05_parse_urls_validated): for EVERY source, every configuration and
+   every env whose recorded destinations are themselves validated, each href / src attribute on
+   each token parse() returns and on each child of an inline token is empty or equal to
+   normalizeLink(x) for some x with validateLink accepting it -- whichever producer made it
+   (inline destination, image, autolink, reference taken from env, definition recorded by the
+   block parser) -- and the env returned is again of that form; such a URL consists of URL-safe
+   ASCII only (C05_good_url_chars).  URL layer: statements for ALL strings; mdurl.parse / format /
+   punycode are an arbitrary function [reformat].  Only statements and [exact]. *)
+From MD Require Import Base.Py Base.Str Base.Opt Model.Token Model.Utils Model.Url Model.StateBlock Model.Block Model.Inline Model.Pipeline
+     Lemmas.UrlLemmas Lemmas.BlockLemmas Lemmas.BlockKinds Lemmas.EnvLemmas Lemmas.InlineUrls Lemmas.PipelineUrls.
 
 (* every character mdurl.encode emits is a letter, a digit, one of ;/?:@&=+$,-_.!~*'()# or %;
    in particular no blank, control, quote, angle bracket, backslash, backtick, non-ASCII *)
@@ -43,3 +50,29 @@ Example C05_nonvacuous :
   /\ validate_link [32; 74; 97; 118; 97; 83; 99; 114; 105; 112; 116; 58; 120] = false
   /\ validate_link [100; 97; 116; 97; 58; 105; 109; 97; 103; 101; 47; 112; 110; 103; 59; 120] = true.
 Proof. vm_compute. repeat split; reflexivity. Qed.
+
+(* every producer, end to end *)
+Theorem C05_parse_urls_validated :
+  forall cfg reformat casefold linktext, chains_sub (p_block cfg) ->
+  forall src env ts env',
+    env_good reformat env ->
+    parse cfg reformat casefold linktext src env = Ok (ts, env') ->
+    Forall (url_inv reformat) ts /\ env_good reformat env'.
+Proof. exact parse_urls_good. Qed.
+Print Assumptions C05_parse_urls_validated.
+
+Theorem C05_parse_inline_urls_validated :
+  forall cfg reformat casefold linktext, chains_sub (p_block cfg) ->
+  forall src env ts env',
+    env_good reformat env ->
+    parse_inline cfg reformat casefold linktext src env = Ok (ts, env') ->
+    Forall (url_inv reformat) ts /\ env_good reformat env'.
+Proof. exact parse_inline_urls_good. Qed.
+Print Assumptions C05_parse_inline_urls_validated.
+
+(* a good URL is empty or validated, and consists of URL-safe ASCII only *)
+Theorem C05_good_url_chars :
+  forall reformat, (forall s, Forall code_point (reformat s)) ->
+  forall v, gurl reformat v -> forallb url_char v = true.
+Proof. exact good_url_chars. Qed.
+Print Assumptions C05_good_url_chars.
